@@ -372,7 +372,7 @@ def op_of(line):
     return line.split(" -> ")[0].strip()
 
 
-LOOKUP = re.compile(r"^(get|has|iter|iterlag)\b")
+LOOKUP = re.compile(r"^(get|has|iter|iterlag|iterover)\b")
 
 
 def project(line, mode):
@@ -641,6 +641,33 @@ def conc_worker(args):
                                                "ops": [x for x in out.splitlines() if x.startswith("iterw-bad")][:3] + [l]})
         res["sample"] = out.splitlines()[-2:]
         return res
+    if kind == "hammer":
+        # tight real-thread loops with an online oracle (harness/src/conc.rs, run_hammer): a completed
+        # invalidate_all is never undone for a later get, completed inserts are never superseded
+        # backwards, explicit sync() beside the writers' housekeeping neither panics nor leaves the
+        # counters inexact.  Supporting search for a failing input, not a proof.
+        try:
+            rc, out, err = run(limited([HBIN, "hammer", str(seed), str(ncases)]), timeout=300)
+        except subprocess.TimeoutExpired:
+            res["oracle_fail"].append({"case": 0, "verdict": "hang", "ops": [f"mmharness hammer {seed} {ncases} did not finish"], "recorded": True})
+            return res
+        want = set(profile.split("+"))
+        for l in out.splitlines():
+            if l.startswith("hammer "):
+                f = dict(x.split("=") for x in l.split()[1:] if "=" in x)
+                if f["kind"] not in want:
+                    continue
+                res["ops"] += int(f["ops"])
+                res["nontrivial"] += 1
+                res["hist"]["hammer:" + f["kind"]] = res["hist"].get("hammer:" + f["kind"], 0) + 1
+                if f["bad"] != "0":
+                    res["oracle_fail"].append({"case": int(f["round"]), "verdict": "hammer " + f["kind"], "recorded": True,
+                                               "ops": [f"# re-run: harness/target/debug/mmharness hammer {seed} {ncases}"]
+                                                      + [x for x in out.splitlines() if x.startswith("hammer-bad") and f"round={f['round']} " in x][:4] + [l]})
+        if rc != 0 and not res["oracle_fail"]:
+            res["fatal"] = f"hammer run crashed rc={rc} {err[-300:]}"
+        res["sample"] = out.splitlines()[-2:]
+        return res
     if kind == "stall":
         # C09: a thread held inside the maintenance leaves; the writers that filled the channel
         # meanwhile must all finish (harness/src/conc.rs, run_stall)
@@ -783,7 +810,7 @@ def worker(args):
         return miri_worker(args)
     if args[1].startswith("meta-"):
         return meta_worker(args)
-    if args[1] in ("conc", "iterw", "stall"):
+    if args[1] in ("conc", "iterw", "stall", "hammer"):
         return conc_worker(args)
     (prop, kind, seed, ncases, length, profile, mode, oracle_id) = args
     ops = gen_ops(kind, seed, ncases, length, profile)
